@@ -5,6 +5,8 @@ import (
 	"encoding/json"
 	"fmt"
 	"math"
+	"os"
+	"os/exec"
 	"sort"
 	"strconv"
 	"strings"
@@ -2040,6 +2042,33 @@ func genC20(c *Ctx) {
 			}
 			c.add(Case{Op: "sm.read " + hx(txt), Impl: got, Kind: fmt.Sprintf("read-corrupt%d", kind), Nontrivial: true, Oracle: oracle,
 				Note: fmt.Sprintf("ReadNCBI(%q)", trunc(string(txt), 300))})
+		}
+	}
+	// genncbi: the command that produced the shipped tables (ReadNCBI, Gap-Gap := 0, %#v, go/format)
+	if bin := os.Getenv("VERIF_GENNCBI"); bin != "" {
+		for i := 0; i < 4; i++ {
+			t := c.ncbiTable()
+			txt := c.ncbiText(t)
+			want := map[[2]byte]int{}
+			for ri, r := range t.rows {
+				for ci, col := range t.cols {
+					want[[2]byte{lab(r), lab(col)}] = t.vals[ri][ci]
+				}
+			}
+			want[[2]byte{255, 255}] = 0
+			cmd := exec.Command(bin, "-v", "TestMatrix")
+			cmd.Stdin = bytes.NewReader(txt)
+			var out, errb bytes.Buffer
+			cmd.Stdout, cmd.Stderr = &out, &errb
+			oracle := ""
+			if err := cmd.Run(); err != nil {
+				oracle = "genncbi failed on a valid table: " + trunc(errb.String(), 120)
+			} else if !strings.Contains(out.String(), "TestMatrix = SubstitutionMatrix{") {
+				oracle = "genncbi output does not assign the named variable"
+			} else {
+				oracle = goSourceOracle(out.String(), want)
+			}
+			c.add(Case{Kind: "genncbi", Nontrivial: true, Oracle: oracle, Note: fmt.Sprintf("genncbi -v TestMatrix on %q", trunc(string(txt), 200))})
 		}
 	}
 	// very long whitespace / comment lines (whatever the amount of whitespace)
